@@ -140,6 +140,10 @@ class TemplateSummariser(Summariser):
     def target_term(self, sub, st):
         return self._emitter_expr(sub.target, st)
 
+    def inline_env(self, st):
+        # holes inside generated helpers refer to the emitter's `self`
+        return {k: st.env[k] for k in ("self", "code") if k in st.env}
+
     # -- loops over members
     def s_For(self, node, st):
         it = node.iter
